@@ -63,13 +63,13 @@ add("C13",
     design_ref="DESIGN.md §4.2, §5 C13",
     level_text="Every backend call of the real command parks at a gate; after each release the whole process is run to quiescence (all threads asleep, no CPU time consumed), "
                "so the parked calls are exactly the enabled transitions. All completion orders with <=2 (quick) / <=3 (thorough) deviations from oldest-first are executed for backup "
-               "(one-blob packs with mid-run index saves, 3-blob packs, default packs), prune with repacking (fast and re-encoding; also repack-all over one-blob packs, which fills the pack writer pipeline) and copy; across all executions the tree id and "
+               "(one-blob packs with mid-run index saves, 3-blob packs, default packs), prune with repacking (fast and re-encoding; also repack-all over one-blob packs, which fills the pack writer pipeline), check + prune plan over a root directory with 300 distinct sub-directories (hundreds of tree ids queued in the parallel tree streamer) and copy; across all executions the tree id and "
                "the set of indexed blobs must be identical, every final state must read back to the source through an independent decoder with packs and index agreeing, "
                "and quiescence with nothing pending while the command has not returned is reported as deadlock.",
     level_note="Granularity is the backend call: interleavings inside crossbeam/pariter/rayon are not enumerated (loom/shuttle cannot intercept them, DESIGN.md §8). "
                "The driver with mid-run index saves has an uncontrolled race on the indexer lock; its executions are checked but it is reported as not exhaustive. One CPU (pariter window 2), RAYON_NUM_THREADS=1.",
     shards={"quick": 16, "thorough": 16},
-    require_counts=["midrun_index_write", "executions:prune/repack-slow", "executions:prune/repack-all-fast/one-blob-packs", "executions:copy/one-blob-packs"],
+    require_counts=["midrun_index_write", "executions:prune/repack-slow", "executions:prune/repack-all-fast/one-blob-packs", "executions:check+prune-plan/wide-tree", "executions:copy/one-blob-packs"],
     require_max={"max_pending_width": 2},
     variants=[{"name": "1cpu-rayon1", "rayon": 1, "cpus": 1}, {"name": "2cpu-rayon3", "rayon": 3, "cpus": 2}],
     )
@@ -266,7 +266,7 @@ add("C16",
     level_note="Single linearisation per command (the completion-order dimension is C03/C13's); evaluations = crash states + removed subsets.",
     shards={"quick": 16, "thorough": 16},
     rule="crash states of the (cold,hot) pair after every mutating call of a 12-step history + every non-empty subset of hot files removed before repair; non-trivial = distinct canonical (cold,hot) states and distinct repaired subsets",
-    require_counts=["cold_restores", "cold_partial_restores", "cold_prune_repacks", "cold_repair_index", "crash_states", "hot_subsets_removed"],
+    require_counts=["cold_restores", "cold_partial_restores", "cold_prune_repacks", "cold_repair_index", "cold_repair_index_dry", "crash_states", "hot_subsets_removed"],
     )
 
 add("C19",
